@@ -27,7 +27,12 @@ pub struct Job {
     pub scen: Scenario,
     pub scope: Option<(Pos, Pos)>,
     pub stack: usize,
+    /// how the worker consumes the iterator: next | size_hint_next | collect |
+    /// extend | count | fold | last | for_each | nth
+    pub consumer: String,
 }
+
+pub const CONSUMERS: [&str; 9] = ["next", "size_hint_next", "collect", "extend", "count", "fold", "last", "for_each", "nth"];
 
 impl Job {
     pub fn to_json(&self) -> Value {
@@ -37,6 +42,7 @@ impl Job {
             "scenario": self.scen.to_json(),
             "scope": self.scope.map(|(f,t)| vec![f.0,f.1,t.0,t.1]),
             "stack": self.stack,
+            "consumer": self.consumer,
         })
     }
     pub fn from_json(v: &Value) -> Result<Job, String> {
@@ -53,6 +59,7 @@ impl Job {
             scen: Scenario::from_json(&v["scenario"])?,
             scope,
             stack: v["stack"].as_u64().unwrap_or(MIB2 as u64) as usize,
+            consumer: v["consumer"].as_str().unwrap_or("next").to_string(),
         })
     }
     pub fn positions(&self) -> u64 {
@@ -117,18 +124,86 @@ pub fn child_main() -> i32 {
                     Ok(s) => s,
                     Err(m) => return (0u64, 0u64, format!("panic:construct: {m}")),
                 };
-                let mut yields = 0u64;
-                let mut calls = 0u64;
-                loop {
-                    if calls >= budget {
-                        return (yields, calls, "budget".to_string());
+                let consumer = j2.consumer.clone();
+                if consumer == "next" || consumer == "size_hint_next" {
+                    let mut yields = 0u64;
+                    let mut calls = 0u64;
+                    loop {
+                        if calls >= budget {
+                            return (yields, calls, "budget".to_string());
+                        }
+                        calls += 1;
+                        if consumer == "size_hint_next" {
+                            let it = &st.it;
+                            if let Err(m) = guarded(|| it.size_hint()) {
+                                return (yields, calls, format!("panic:{m}"));
+                            }
+                        }
+                        match st.step_raw() {
+                            Ok(Some(_)) => yields += 1,
+                            Ok(None) => return (yields, calls, "end".to_string()),
+                            Err(m) => return (yields, calls, format!("panic:{m}")),
+                        }
                     }
-                    calls += 1;
-                    match st.step_raw() {
-                        Ok(Some(_)) => yields += 1,
-                        Ok(None) => return (yields, calls, "end".to_string()),
-                        Err(m) => return (yields, calls, format!("panic:{m}")),
+                }
+                // the std consumers, bounded by take(budget) so a runaway iterator still ends
+                let cap = budget.min(usize::MAX as u64) as usize;
+                let it = &mut st.it;
+                let r = guarded(|| -> (u64, bool) {
+                    match consumer.as_str() {
+                        "collect" => {
+                            let v: Vec<espada::evaluator::Showdown> = it.by_ref().take(cap).collect();
+                            (v.len() as u64, v.len() < cap)
+                        }
+                        "extend" => {
+                            let mut v: Vec<espada::evaluator::Showdown> = Vec::new();
+                            v.extend(it.by_ref().take(cap));
+                            (v.len() as u64, v.len() < cap)
+                        }
+                        "count" => {
+                            let n = it.by_ref().take(cap).count();
+                            (n as u64, n < cap)
+                        }
+                        "fold" => {
+                            let n = it.by_ref().take(cap).fold(0u64, |a, s| a + 1 + (s.winner_len() as u64 & 0));
+                            (n, (n as usize) < cap)
+                        }
+                        "last" => {
+                            let mut n = 0u64;
+                            let _ = it.by_ref().take(cap).inspect(|_| n += 1).last();
+                            (n, (n as usize) < cap)
+                        }
+                        "for_each" => {
+                            let mut n = 0u64;
+                            it.by_ref().take(cap).for_each(|_| n += 1);
+                            (n, (n as usize) < cap)
+                        }
+                        _ => {
+                            // nth(k) repeatedly: skips through the enumeration in strides
+                            let mut n = 0u64;
+                            let mut guard = 0usize;
+                            while guard < cap {
+                                guard += 7;
+                                match it.nth(6) {
+                                    Some(_) => n += 7,
+                                    None => return (n, true),
+                                }
+                            }
+                            (n, false)
+                        }
                     }
+                });
+                match r {
+                    Ok((n, true)) => {
+                        // drained: one more poll must still be None
+                        match st.step_raw() {
+                            Ok(None) => (if consumer == "nth" { u64::MAX } else { n }, n + 1, "end".to_string()),
+                            Ok(Some(_)) => (n, n + 1, "budget".to_string()),
+                            Err(m) => (n, n + 1, format!("panic:{m}")),
+                        }
+                    }
+                    Ok((n, false)) => (n, n, "budget".to_string()),
+                    Err(m) => (0, 0, format!("panic:{m}")),
                 }
             });
         let res = match h {
@@ -280,7 +355,7 @@ pub fn run_jobs(profile: &str, jobs: &[Job], watchdog: Duration) -> Result<Vec<J
 pub fn judge(job: &Job, r: &JobResult) -> Option<(String, String)> {
     let o = r.outcome.as_str();
     if o == "end" {
-        if job.has_empty_range() && r.yields != 0 {
+        if job.has_empty_range() && r.yields != 0 && r.yields != u64::MAX {
             return Some((
                 "empty_range_not_empty".into(),
                 format!("a player has an empty range but {} showdowns were yielded", r.yields),
@@ -373,7 +448,7 @@ pub fn gen_jobs(vs: u64, tier: &str, profile: &str) -> Vec<Job> {
     let mut jobs: Vec<Job> = vec![];
     let mut push = |class: &str, scen: Scenario, scope: Option<(Pos, Pos)>, jobs: &mut Vec<Job>| {
         let id = jobs.len();
-        jobs.push(Job { id, class: class.to_string(), scen, scope, stack: MIB2 });
+        jobs.push(Job { id, class: class.to_string(), scen, scope, stack: MIB2, consumer: "next".to_string() });
     };
     // (i) long blocked runs: a narrow range on the first deck cards beside a wide one
     for &k in &[50usize, 100, 255, 256, 400, 1326] {
@@ -516,6 +591,75 @@ pub fn gen_jobs(vs: u64, tier: &str, profile: &str) -> Vec<Job> {
         let sc = if rng.chance(1, 3) { bounded_scope(scen.product(), max_states, from) } else { bounded_scope(scen.product(), max_states, FIRST) };
         push("random_mix", scen, sc, &mut jobs);
     }
+    // 7..=22 players with one or two combos each on disjoint cards (deals do
+    // materialise), strong hands seated last
+    for np in [7usize, 10, 15, 16, 17, 18, 20, 22] {
+        let flop = low_flop(&mut rng);
+        let mut cards: Vec<u8> = (0..52u8).filter(|c| !flop.contains(c)).collect();
+        // keep aces and kings for the last seats
+        let strong: Vec<u8> = cards.iter().cloned().filter(|c| *c < 8).collect();
+        cards.retain(|c| *c >= 8);
+        rng.shuffle(&mut cards);
+        let mut players: Vec<RangeRecipe> = vec![];
+        for i in 0..np {
+            let mut e = vec![];
+            if i + 2 >= np && strong.len() >= 4 {
+                let k = (i + 2 - np) * 4;
+                e.push((strong[k], strong[k + 1], w1()));
+            } else if cards.len() >= 2 {
+                let a = cards.pop().unwrap();
+                let b = cards.pop().unwrap();
+                e.push((a.min(b), a.max(b), w1()));
+            }
+            if e.is_empty() {
+                e.push((strong[0], strong[2], w1()));
+            }
+            players.push(RangeRecipe::simple(e));
+        }
+        let scen = Scenario { flop, players };
+        let sc = bounded_scope(scen.product(), max_states.min(400), pos_from_index(rng.usize_below(NPOS - 1)));
+        push("many_players_7_to_22", scen, sc, &mut jobs);
+    }
+    // consumer styles: the same small scenarios through every std way of draining
+    // an iterator, over scopes inside one turn row, across rows, to the terminal, unscoped
+    {
+        let scens = vec![
+            Scenario { flop: gen_flop(&mut rng), players: vec![RangeRecipe::simple(sized_range(&mut rng, 3)), RangeRecipe::simple(sized_range(&mut rng, 2))] },
+            Scenario { flop: gen_flop(&mut rng), players: vec![RangeRecipe::simple(sized_range(&mut rng, 5))] },
+            Scenario { flop: gen_flop(&mut rng), players: vec![] },
+        ];
+        for scen in &scens {
+            let t = rng.below(46) as u8;
+            let scopes: Vec<Option<(Pos, Pos)>> = vec![
+                Some(((t, t + 1), (t, 48))),
+                Some(((0, 1), (0, 48))),
+                Some(((t, 47), (t + 1, t + 3))),
+                Some(((0, 1), (1, 30))),
+                Some(((5, 9), (6, 48))),
+                Some(((44, 45), TERMINAL)),
+                Some(((47, 48), TERMINAL)),
+                Some((pos_from_index(rng.usize_below(NPOS)), TERMINAL)),
+                None,
+            ];
+            for sc in scopes {
+                if let Some((f, to)) = sc {
+                    if f > to {
+                        continue;
+                    }
+                }
+                for c in CONSUMERS.iter() {
+                    let id = jobs.len();
+                    jobs.push(Job { id, class: "consumer_styles".to_string(), scen: scen.clone(), scope: sc, stack: MIB2, consumer: c.to_string() });
+                }
+            }
+        }
+    }
+    // a random consumer for the cheap jobs of the other classes
+    for j in jobs.iter_mut() {
+        if j.class != "consumer_styles" && j.states() <= 150_000 && rng.chance(1, 2) {
+            j.consumer = CONSUMERS[rng.usize_below(CONSUMERS.len())].to_string();
+        }
+    }
     jobs
 }
 
@@ -604,6 +748,15 @@ fn minimise(profile: &str, job: &Job, okey: &str, watchdog: Duration) -> (Job, u
                 }
             }
         }
+        // simplest consumer
+        if best.consumer != "next" {
+            let mut c = best.clone();
+            c.consumer = "next".to_string();
+            if fails(&c, &mut tried) {
+                best = c;
+                progress = true;
+            }
+        }
         // plain recipes
         let mut c = best.clone();
         let mut changed = false;
@@ -626,6 +779,7 @@ fn minimise(profile: &str, job: &Job, okey: &str, watchdog: Duration) -> (Job, u
 fn job_key(j: &Job) -> String {
     let mut f = Fold::new();
     f.add_str(&j.scen.to_json().to_string());
+    f.add_str(&j.consumer);
     if let Some((a, b)) = j.scope {
         f.add(pos_index(a) as u64);
         f.add(pos_index(b) as u64);
@@ -696,6 +850,10 @@ pub fn run(tier: &str) -> i32 {
                 ev.distinct.insert(f.get());
             }
             ev.probe(&format!("class:{}", j.class.split('_').take(2).collect::<Vec<_>>().join("_")), 1);
+            ev.probe(&format!("consumer:{}", j.consumer), 1);
+            if j.scen.players.len() > 16 {
+                ev.probe("more_than_16_players", 1);
+            }
             let lb = blocked_run_lower_bound(j);
             let e = ev.probes.entry(format!("longest_blocked_run_lower_bound_{profile}")).or_insert(0);
             *e = (*e).max(lb);
@@ -729,7 +887,7 @@ pub fn run(tier: &str) -> i32 {
                 }
             }
             if ev.samples.len() < 10 && (j.id % 17 == 0) {
-                ev.sample(json!({"profile": profile, "class": j.class, "scenario": j.scen.short(),
+                ev.sample(json!({"profile": profile, "class": j.class, "consumer": j.consumer, "scenario": j.scen.short(),
                     "scope": j.scope.map(|(f,t)| format!("{}..{}", pos_str(f), pos_str(t))),
                     "odometer_states": j.states(), "yields": r.yields, "next_calls": r.calls, "outcome": r.outcome}));
             }
@@ -748,7 +906,8 @@ pub fn run(tier: &str) -> i32 {
             oracle: okey.clone(),
             key: format!("{okey}:{}", job_key(&min)),
             detail: format!(
-                "[{profile}] {} scope {} ({} odometer states): {} — {} of this tier's {profile} runs fail this way",
+                "[{profile}] consumer={} {} scope {} ({} odometer states): {} — {} of this tier's {profile} runs fail this way",
+                min.consumer,
                 min.scen.short(),
                 min.scope.map(|(f, t)| format!("{}..{}", pos_str(f), pos_str(t))).unwrap_or("full".into()),
                 min.states(),
@@ -772,7 +931,7 @@ pub fn run(tier: &str) -> i32 {
             let mut smallest_pass: Option<usize> = None;
             for kib in [2048usize, 1024, 256, 64] {
                 let sc = bounded_scope(scen.product(), if profile == "dev" { 60_000 } else { 600_000 }, FIRST);
-                let job = Job { id: 0, class: "ladder".into(), scen: scen.clone(), scope: sc, stack: kib * 1024 };
+                let job = Job { id: 0, class: "ladder".into(), scen: scen.clone(), scope: sc, stack: kib * 1024, consumer: "next".into() };
                 match run_jobs(profile, std::slice::from_ref(&job), watchdog) {
                     Ok(rs) if rs.first().map(|r| r.outcome == "end").unwrap_or(false) => smallest_pass = Some(kib),
                     _ => break,
